@@ -38,6 +38,13 @@ def sweeps(tier):
         # of the renderer for %(x html_quote)s), with and without size
         sweep(tv + OTHERS, singles, cfmts=('6s',), sizes=(-1, 4), forms=('name', 'expr')),
     ]
+    # the money formats: "$%d" / "$%.2f" of a number (at most two decimals: no rounding), with and without thousands separators;
+    # anything that is not a number gives the empty string
+    money = [other('num', x, False) for x in ('0', '7', '1234567', '12345.5', '-1234567.25', '999.99', '1000', '-0.5', '0.75',
+                                               '100000.1', '-12', '1234.00')]
+    out.append(sweep(money + tv[:4] + [tv[8]], [[], ['html_quote'], ['thousands_commas'], ['upper'], ['url_quote']],
+                     fmts=('whole-dollars', 'dollars-and-cents', 'dollars-with-commas', 'dollars-and-cents-with-commas'),
+                     sizes=(-1, 5, 30), nulls=(False, True), forms=('name', 'expr')))
     # untrusted (tainted) values go through the same modifier functions: the laws of C15 hold for them too
     tt = [text("<b>x' OR 1=1 --\x00\x1a\r", True), text("it's <i>a b_c 1234567.5", True), text("<'>%3C%27+x", True)]
     out.append(sweep(tt, singles + [['sql_quote', 'upper'], ['sql_quote', 'spacify'], ['url_unquote', 'sql_quote'],
